@@ -44,7 +44,7 @@ P_C06R(x) ==
                               /\ LookupOK(x.r_post) /\ NoDupLookups(Rec.r_post))
 \* C07: the pixel query returns exactly the node's pixels
 PixQueryOK(j, O) == HasSeg => \A n \in Present(O) : Rng(j.q.pix[n]) = MaskOf(O, n)
-P_C07R(x) == P_C07(x) /\ ((HasSeg /\ x.pf.forest /\ x.pf.seg /\ x.ok) => PixQueryOK(Rec.post, x.post))
+P_C07R(x) == P_C07(x) /\ ((HasSeg /\ x.pf.forest /\ x.pf.seg /\ x.ok /\ ~IsSwitch(x.c)) => PixQueryOK(Rec.post, x.post))
              /\ ((HasSeg /\ PFValid(x.pf) /\ Accepted(x)) => x.u_post.seg = x.pre.seg)
 
 (***************************************************************************)
